@@ -12,12 +12,14 @@
        -> one token per op ("ok:<fields>" | "e<code>:<fields>" then "dead" | "d" | "s"),
           last token "T<max>/<cur>/<size>:<entries>"
      connv / connx              same + " x=ok" (the harness cross-checks with nghttp2)
+     resp <srvtag> <item>...    h2_send_headers() of one connection's responses (see h_hpack.c)
      enc <max> <cur> <block>... reference encoder (tool use): block = fields joined by ",",
          field = name:value:mode:idx:huffN:huffV:resize+resize..   -> one hex block per token
 -/
 import LtVerif.Model.Hpack
+import LtVerif.Model.H2Headers
 namespace Driver
-open LtVerif LtVerif.B LtVerif.Hpack
+open LtVerif LtVerif.B LtVerif.Hpack LtVerif.H2Headers
 
 def hpHex (s : String) (f : Bytes → String) : String :=
   match ofHex s with
@@ -90,6 +92,51 @@ def encRun : Table → List String → List String → String
       let r := encodeBlock t (fs.map (·.2)) (fs.map (·.1))
       encRun r.2 rest (toHex r.1 :: acc)
 
+/-- "<op><hexname>:<hexvalue>,..." applied to an empty response -/
+def applyHdrOps (ops : String) : Option Resp :=
+  if ops == "-" then some {} else
+  (ops.splitOn ",").foldlM (fun (r : Resp) t =>
+    match ((t.drop 1).toString).splitOn ":" with
+    | [k, v] =>
+      match ofHex k, ofHex v with
+      | some k, some v =>
+        match (t.take 1).toString with
+        | "s" => some (r.set k v)
+        | "i" => some (r.insert k v)
+        | "a" => some (r.append k v)
+        | _ => none
+      | _, _ => none
+    | _ => none) {}
+
+def respItem (srv : Bool) (it : String) : String :=
+  let kind := (it.take 1).toString
+  if kind == "C" then "c"
+  else if kind == "F" then
+    -- SETTINGS_MAX_FRAME_SIZE outside [2^14, 2^24-1] is a connection error
+    match ((it.drop 1).toString).toNat? with
+    | some n => if n < 16384 ∨ n > 16777215 then "f goaway" else "f"
+    | none => "bad-op"
+  else if kind == "R" then
+    match ((it.drop 1).toString).splitOn "/" with
+    | [st, es, ops] =>
+      match st.toNat?, applyHdrOps ops with
+      | some st, some r =>
+        match respFields st r (if srv then some (ofString "ltv/1.0") else none) with
+        | none => "rst"
+        | some fs => "ok:" ++ (if es == "0" then "0" else "1") ++ ":" ++
+            joinWith "," (fs.map fun f => toHex f.1 ++ ":" ++ toHex f.2)
+      | _, _ => "bad-op"
+    | _ => "bad-op"
+  else "bad-op"
+
+/-- items until a connection error ("goaway" ends the line) -/
+def respRun (srv : Bool) : List String → List String → String
+  | [], acc => " ".intercalate acc.reverse
+  | it :: rest, acc =>
+    let o := respItem srv it
+    if o.endsWith "goaway" || o == "bad-op" then " ".intercalate (acc.reverse ++ [o])
+    else respRun srv rest (o :: acc)
+
 def hpackLine : List String → String
   | ["int", p, h] => hpHex h fun b =>
     match p.toNat? with
@@ -135,6 +182,7 @@ def hpackLine : List String → String
       (match huffDecode (b.length + 16) (huffEncode b) with
        | .ok s => if s = b then "1" else "0"
        | .error _ => "0")
+  | "resp" :: srv :: items => respRun (srv == "1") items []
   | "enc" :: mx :: cur :: blocks =>
     match mx.toNat?, cur.toNat? with
     | some mx, some cur => encRun ⟨mx, cur, []⟩ blocks []
